@@ -56,6 +56,10 @@ def check(run, project):
     l5(run, mod, fns)
     l7(run, mod, fns, project)
     l8(run, mod, fns, project)
+    # L9 (= C15-F2): `type` needs the decoded object from whichever front-end --in selects
+    from ..report import RuleView
+    from . import c15
+    c15.f1_f2(RuleView(run, "F2", "L9"), project)
     from .shared import unbound_locals
     unbound_locals(run, project, "L6", (MAIN, "tpmstream.common.canonical"), what="a traceback instead of the command's output")
     from .shared import undefined_names
